@@ -48,6 +48,7 @@ CONSTANTS Clients,     \* client symbols (strings): Ethernet source addresses
           PickMode,    \* "any" = a fresh offer may be any free address (the property);
                        \* "impl" = the address pool[0] of the implementation (export for replay)
           JunkKinds,   \* kinds of frames that are not a DHCP request to this server
+          KeepHist,    \* FALSE only for the liveness run (no VIEW there, so the history must not grow)
           D            \* export depth
 
 Addrs == 1..N
@@ -117,7 +118,7 @@ Args(c, w, d) == [c |-> c, w |-> w, p |-> d.p, x |-> d.x, bc |-> d.bc, prl |-> d
 
 Log(a, args, exp) ==
   /\ last' = [a |-> a, args |-> args, exp |-> exp]
-  /\ hist' = Append(hist, [a |-> a, args |-> args, exp |-> exp])
+  /\ hist' = IF KeepHist THEN Append(hist, [a |-> a, args |-> args, exp |-> exp]) ELSE hist
 
 Init == /\ up = FALSE
         /\ pool = PInit
@@ -146,7 +147,8 @@ DiscoverLeased(c, w, d) ==
 \* the client has an outstanding offer: the same address is offered again
 DiscoverOffered(c, w, d) ==
   /\ up /\ leases[c] = 0 /\ offers[c] # 0
-  /\ UNCHANGED <<up, pool, offers, leases, age>>
+  /\ age' = [age EXCEPT ![c] = 0]
+  /\ UNCHANGED <<up, pool, offers, leases>>
   /\ Log("Discover", Args(c, w, d), Obs(Rep("OFFER", offers[c], d), NoEv, FALSE, pool, offers, leases))
 
 \* nothing left: NAK
@@ -158,7 +160,8 @@ DiscoverExhausted(c, w, d) ==
 DiscoverGive(c, w, d, a, alts) ==
   /\ pool' = PRemove(pool, a)
   /\ offers' = [offers EXCEPT ![c] = a]
-  /\ UNCHANGED <<up, leases, age>>
+  /\ age' = [age EXCEPT ![c] = 0]
+  /\ UNCHANGED <<up, leases>>
   /\ Log("Discover", Args(c, w, d) @@ [alts |-> alts],
          Obs(Rep("OFFER", a, d), NoEv, FALSE, pool', offers', leases))
 \* the address the client asks for (option 50) is free: that one
@@ -240,7 +243,7 @@ RequestAckKeepsOffer(c, w, d) ==
   /\ age' = [age EXCEPT ![c] = 0]
   /\ UNCHANGED up
   /\ Log("Request",
-         Args(c, w, d) @@ [alt |-> Obs(Rep("ACK", r.got, d), Ev(c, r.got), FALSE, pool', [r.offers EXCEPT ![c] = 0], leases')],
+         Args(c, w, d) @@ [alt |-> <<Obs(Rep("ACK", r.got, d), Ev(c, r.got), FALSE, pool', [r.offers EXCEPT ![c] = 0], leases')>>],
          Obs(Rep("ACK", r.got, d), Ev(c, r.got), FALSE, pool', offers', leases'))
 
 \* a DHCPLease listener calls nak(): "abort this lease".  Intended: NAK, the client holds nothing, the address
@@ -255,22 +258,27 @@ RequestVetoAborts(c, w, d) ==
   /\ age' = [age EXCEPT ![c] = 0]
   /\ UNCHANGED up
   /\ Log("Request", Args(c, w, d), Obs(Rep("NAK", 0, d), Ev(c, r.got), FALSE, pool', offers', leases'))
-\* DEVIATION (code as built): the NAK goes out, but the lease (and the offer) stay recorded
-RequestVetoKeepsLease(c, w, d) ==
-  LET r == ReqRes(c, w) IN
-  /\ ~Strict
+\* DEVIATION (code as built): the NAK goes out, but the lease stays recorded.  ko: the offer stays as well (that is
+\* the first deviation again; as built ko = TRUE).
+RequestVetoKeepsLease(c, w, d, ko) ==
+  LET r == ReqRes(c, w)
+      cleared == [r.offers EXCEPT ![c] = 0]
+      kept == [r.leases EXCEPT ![c] = r.got]
+      nak == Rep("NAK", 0, d) IN
+  /\ ~Strict /\ (ko \/ (Both /\ r.offers[c] # 0))
   /\ up /\ w # 0 /\ ~r.fault /\ r.got # 0 /\ <<c, r.got>> \in Veto
   /\ pool' = r.pool
-  /\ offers' = r.offers
-  /\ leases' = [r.leases EXCEPT ![c] = r.got]
+  /\ offers' = IF ko THEN r.offers ELSE cleared
+  /\ leases' = kept
   /\ age' = [age EXCEPT ![c] = 0]
   /\ UNCHANGED up
   /\ Log("Request",
-         IF PAppendOK(r.pool, r.got)
-         THEN Args(c, w, d) @@ [alt |-> Obs(Rep("NAK", 0, d), Ev(c, r.got), FALSE, PAppend(r.pool, r.got),
-                                            [r.offers EXCEPT ![c] = 0], [r.leases EXCEPT ![c] = 0])]
-         ELSE Args(c, w, d),
-         Obs(Rep("NAK", 0, d), Ev(c, r.got), FALSE, pool', offers', leases'))
+         Args(c, w, d) @@
+         [alt |-> (IF PAppendOK(r.pool, r.got)
+                   THEN <<Obs(nak, Ev(c, r.got), FALSE, PAppend(r.pool, r.got), cleared, [r.leases EXCEPT ![c] = 0])>>
+                   ELSE <<>>)
+                  \o (IF r.offers[c] # 0 THEN <<Obs(nak, Ev(c, r.got), FALSE, r.pool, cleared, kept)>> ELSE <<>>)],
+         Obs(nak, Ev(c, r.got), FALSE, pool', offers', leases'))
 
 \* giving back an address that is already in the pool makes SimpleAddressPool.append raise: the handler dies
 \* half-way, nothing is sent.  Unreachable in the intended design (invariant NoFault); reachable as built.
@@ -331,18 +339,22 @@ NotServed(c, p, d) ==
 ----------------------------------------------------------------------------
 (* Time.  The server announces a lease time (option 51) in every OFFER / ACK. *)
 
-Expiring == {c \in Clients : leases[c] # 0 /\ age[c] + 1 >= LeaseTicks}
+HeldBy(c) == {offers[c], leases[c]} \ {0}
+Expiring == {c \in Clients : HeldBy(c) # {} /\ age[c] + 1 >= LeaseTicks}
 RECURSIVE AppendAll(_, _)
 AppendAll(pl, S) == IF S = {} THEN pl ELSE LET a == CHOOSE a \in S : \A b \in S : a <= b
                                            IN AppendAll(PAppend(pl, a), S \ {a})
-\* Intended: a lease that is not renewed within the lease time ends and its address is free again
+\* Intended: a lease that is not renewed within the lease time ends and its address is free again.  An offer
+\* that is not taken up is treated the same way (the model gives offers the lifetime of a lease; RFC 2131 only
+\* asks that it be limited) - otherwise a client that only ever DISCOVERs keeps an address for good.
 TickExpire ==
   /\ Strict /\ up
   /\ leases' = [c \in Clients |-> IF c \in Expiring THEN 0 ELSE leases[c]]
-  /\ age' = [c \in Clients |-> IF leases[c] # 0 /\ c \notin Expiring THEN age[c] + 1 ELSE 0]
-  /\ pool' = AppendAll(pool, {leases[c] : c \in Expiring})
-  /\ UNCHANGED <<up, offers>>
-  /\ Log("Tick", [c |-> ""], Obs(NoRep, NoEv, FALSE, pool', offers, leases'))
+  /\ offers' = [c \in Clients |-> IF c \in Expiring THEN 0 ELSE offers[c]]
+  /\ age' = [c \in Clients |-> IF HeldBy(c) # {} /\ c \notin Expiring THEN age[c] + 1 ELSE 0]
+  /\ pool' = AppendAll(pool, UNION {HeldBy(c) : c \in Expiring})
+  /\ UNCHANGED up
+  /\ Log("Tick", [c |-> ""], Obs(NoRep, NoEv, FALSE, pool', offers', leases'))
 \* DEVIATION (code as built): "TODO: Actually make them expire" - time changes nothing
 TickNoExpiry ==
   /\ ~Strict /\ up
@@ -356,7 +368,8 @@ DiscoverNext == \E c \in Clients, w \in Wants : \E d \in Decs(c) :
 RequestNext  == \E c \in Clients, w \in Wants \ {0} : \E d \in Decs(c) :
                   \/ RequestNak(c, w, d) \/ RequestAckLease(c, w, d) \/ RequestAckOffer(c, w, d)
                   \/ RequestAckFree(c, w, d) \/ RequestAckKeepsOffer(c, w, d)
-                  \/ RequestVetoAborts(c, w, d) \/ RequestVetoKeepsLease(c, w, d) \/ RequestFault(c, w, d)
+                  \/ RequestVetoAborts(c, w, d) \/ RequestVetoKeepsLease(c, w, d, TRUE) \/ RequestVetoKeepsLease(c, w, d, FALSE)
+                  \/ RequestFault(c, w, d)
 Other(c) == CHOOSE x \in Clients : x # c
 ReleaseNext  == \E c \in Clients, ci \in Wants :
                 \E d \in [p : Served, x : Xids, bc : Flags, prl : PRLs, ch : IF ChVary THEN Clients ELSE {c, Other(c)}] :
@@ -369,6 +382,8 @@ OtherNext    == \/ \E c \in Clients : \E d \in Decs(c) : RequestNoOpt(c, d)
 Next == ConnUp \/ DiscoverNext \/ RequestNext \/ ReleaseNext \/ OtherNext \/ TickExpire \/ TickNoExpiry
 
 Spec == Init /\ [][Next]_vars
+\* for the liveness property: time keeps passing
+LiveSpec == Init /\ [][Next]_vars /\ WF_vars(TickExpire)
 
 ----------------------------------------------------------------------------
 (* Properties, over the real variables.                                       *)
@@ -453,13 +468,18 @@ ReleaseOK ==
        IF last'.args.ch = c /\ leases[c] # 0 /\ leases[c] = last'.args.w
        THEN leases'[c] = 0 /\ PFree(pool') = PFree(pool) \cup {leases[c]}
        ELSE pool' = pool /\ leases' = leases /\ offers' = offers]_vars
-\* expiry: after LeaseTicks ticks without renewal the lease is gone and the address is free
+\* expiry: after LeaseTicks ticks without renewal the lease (or offer) is gone and the address is free
 ExpiryOK ==
   [][last'.a = "Tick" =>
-       \A c \in Clients : leases[c] # 0 =>
-          IF age[c] + 1 >= LeaseTicks THEN leases'[c] = 0 /\ PHas(pool', leases[c])
-                                      ELSE leases'[c] = leases[c] /\ age'[c] = age[c] + 1]_vars
-NoStaleLease == \A c \in Clients : leases[c] # 0 => age[c] < LeaseTicks
+       \A c \in Clients : Held(c) # {} =>
+          IF age[c] + 1 >= LeaseTicks THEN Held(c)' = {} /\ \A a \in Held(c) : PHas(pool', a)
+                                      ELSE leases'[c] = leases[c] /\ offers'[c] = offers[c] /\ age'[c] = age[c] + 1]_vars
+NoStaleLease == \A c \in Clients : Held(c) # {} => age[c] < LeaseTicks
+\* liveness (LiveSpec): what a client holds is given up - or refreshed by its owner - whatever everybody else does
+LeaseEnds == \A c \in Clients : (Held(c) # {}) ~> (Held(c) = {} \/ age[c] = 0)
+\* ... and an address that is held is eventually free again, or its holder has refreshed it
+AddressReturns == \A a \in Addrs : (\E c \in Clients : a \in Held(c) /\ age[c] > 0) ~>
+                                      (PHas(pool, a) \/ \E c \in Clients : a \in Held(c) /\ age[c] = 0)
 
 \* The invariants that talk about the observation `last` as action properties: TLC evaluates an action property on
 \* every transition it generates, also those into states it has already seen, so `last` can be left out of the
